@@ -1,11 +1,15 @@
 import GoflowModel.Basic.Json
 import GoflowModel.Basic.JsonString
 import GoflowModel.Driver.Util
+import GoflowModel.Migrate.Steps
 /-
   jsonrt <document as prefix tokens>   →  ok <document as prefix tokens>        (json(parse_json(doc)))
 
   tokens:  N | T | F | #<coefficient>:<exponent> | S<hex text> | [<n> v₁ … vₙ | {<n> K<hex name> v₁ … K<hex name> vₙ
   in the answer numbers are written as they render: #<text>
+
+  migstep <v> <n> <hex uuid,…> <flow as prefix tokens>  →  ok <n'> <flow as prefix tokens>   (Migrate13_<v> and the version stamp;
+                                                            numbers are echoed as coefficient:exponent)
 
   jsonstr enc <hex text>      →  ok <hex of the string literal json.Marshal writes>
   jsonstr dec <hex literal>   →  ok <hex of its value> | err
@@ -86,7 +90,56 @@ mutual
     | .cons k v rest => ("K" ++ encL k) :: (encJ v ++ encJO rest)
 end
 
+mutual
+  /-- as `encJ`, numbers echoed as they were given -/
+  def rawJ : J → List String
+    | .null => ["N"]
+    | .bool true => ["T"]
+    | .bool false => ["F"]
+    | .num d => ["#" ++ (if d.neg then "-" else "") ++ String.ofList d.digits ++ ":" ++ toString d.exp]
+    | .str s => ["S" ++ encL s]
+    | .arr l => s!"[{lenL l}" :: rawJL l
+    | .obj l => ("{" ++ toString (lenO l)) :: rawJO l
+  def rawJL : JL → List String
+    | .nil => []
+    | .cons x rest => rawJ x ++ rawJL rest
+  def rawJO : JO → List String
+    | .nil => []
+    | .cons k v rest => ("K" ++ encL k) :: (rawJ v ++ rawJO rest)
+end
+
+/-- members in the order of their names (the order `encoding/json` writes a map in) -/
+def insSorted (k : List Char) (v : J) : JO → JO
+  | .nil => .cons k v .nil
+  | .cons k' v' rest => if k < k' then .cons k v (.cons k' v' rest) else .cons k' v' (insSorted k v rest)
+
+mutual
+  def sortJ : J → J
+    | .arr l => .arr (sortJL l)
+    | .obj l => .obj (sortJO l)
+    | x => x
+  def sortJL : JL → JL
+    | .nil => .nil
+    | .cons x rest => .cons (sortJ x) (sortJL rest)
+  def sortJO : JO → JO
+    | .nil => .nil
+    | .cons k v rest => insSorted k (sortJ v) (sortJO rest)
+end
+
+def migstep (v n : Nat) (us : List (List Char)) (toks : List String) : String :=
+  match parseJ (2 * toks.length + 2) toks with
+  | some (.obj f, []) =>
+    if v = 3 || v = 0 || v > 6 then "skip"
+    else
+      let r := Migrate.Steps.stepFn (fun i => us.getD i []) id v (n, f)
+      "ok " ++ toString r.1 ++ " " ++ " ".intercalate (rawJ (sortJ (.obj r.2)))
+  | _ => "bad-document"
+
 def handle : List String → Option String
+  | "migstep" :: v :: n :: us :: toks =>
+    match v.toNat?, n.toNat?, decList us with
+    | some v, some n, some us => some (migstep v n us toks)
+    | _, _, _ => some "bad-input"
   | "jsonrt" :: toks =>
     match parseJ (2 * toks.length + 2) toks with
     | some (j, []) => some ("ok " ++ " ".intercalate (encJ (rt j)))
